@@ -174,6 +174,15 @@ func c11Run(c *fw.Ctx, itemp *int64, universe []string, lists []GOp) {
 	c11RunSets(c, itemp, subsetsOf(universe), lists)
 }
 
+// c11CheckFrom: replays of small buckets compare the state after every request; for the large fixtures only from
+// the last upload on, as the run itself does.
+func c11CheckFrom(lastSetup int) int {
+	if lastSetup > 40 {
+		return lastSetup
+	}
+	return 0
+}
+
 func c11RunSets(c *fw.Ctx, itemp *int64, subsets [][]string, lists []GOp) {
 	item := *itemp
 	defer func() { *itemp = item }()
@@ -202,7 +211,7 @@ func c11RunSets(c *fw.Ctx, itemp *int64, subsets [][]string, lists []GOp) {
 				// the bucket as a whole is compared with the model once, after the last upload (a replay compares after
 				// every request and reports the first request whose effect is wrong under the same signature)
 				if m, cl := w.Step(&setup[i], i == len(setup)-1); m != "" {
-					gc := gcsCase{Store: store, Ops: setup[:i+1]}
+					gc := gcsCase{Store: store, Ops: setup[:i+1], CheckFrom: c11CheckFrom(i)}
 					c.Violate(fmt.Sprintf("C11:%s:%s:%s", store, cl, c11Tag(&setup[i])), m+"\n  bucket contents: "+fmt.Sprintf("%q", names), gc, func() string {
 						b, _ := json.Marshal(gc)
 						s, _ := gcsReplay("C11", c11Tag)(c, b)
@@ -221,7 +230,7 @@ func c11RunSets(c *fw.Ctx, itemp *int64, subsets [][]string, lists []GOp) {
 					c.Trace(1)
 					c.Trans(1)
 					if m != "" {
-						gc := gcsCase{Store: store, Ops: append(append([]GOp(nil), setup...), o)}
+						gc := gcsCase{Store: store, Ops: append(append([]GOp(nil), setup...), o), CheckFrom: c11CheckFrom(len(setup) - 1)}
 						sig := fmt.Sprintf("C11:%s:%s:%s", store, cl, c11Tag(&o))
 						c.Violate(sig, m+"\n  bucket contents: "+fmt.Sprintf("%q", names), gc, func() string {
 							b, _ := json.Marshal(gc)
